@@ -27,11 +27,16 @@ def check(report, tier, seed):
         g = gen.ProgGen(rng, n_wires=rng.randint(3, 10), depth=rng.randint(1, 3), allow_div=False, wide_names=True,
                         halt_at=rng.choice([None, 2, 3]))
         progs.append((g.build(), gen.yo_image(rng, 10 * cycles + 30), g))
+    # histories in which a built-in port is switched off after delivering data (its output must not go stale
+    # under some options only), and register-file / bank activity
+    for mk in (histgen.mem_program, histgen.mem_program, histgen.regfile_program, lambda r: histgen.bank_program(r)[0]):
+        progs.append((mk(rng), gen.yo_image(rng, 10 * 12 + 30), None))
+    nprog = len(progs)
     # 1. RunningProgram::run under all 32 subsets: text against the model, final state across subsets
     cases = {}
     for i, (hcl, yo, g) in enumerate(progs):
         for j, fl in enumerate(subsets):
-            cases["o%d_%d" % (i, j)] = {"hcl": hcl, "yo": yo, "flags": fl, "timeout": cycles}
+            cases["o%d_%d" % (i, j)] = {"hcl": hcl, "yo": yo, "flags": fl, "timeout": cycles if g is not None else 12}
     impl, model, stats = simcheck.run_sim_cases(report, cases, kind="run", key_prefix="options")
     for i in range(nprog):
         ref = None
@@ -56,7 +61,7 @@ def check(report, tier, seed):
     scases = {}
     for i, (hcl, yo, g) in enumerate(progs):
         for fl in ("d", "du"):
-            scases["d%d_%s" % (i, fl)] = {"hcl": hcl, "yo": yo, "cycles": cycles, "flags": fl, "timeout": 9999}
+            scases["d%d_%s" % (i, fl)] = {"hcl": hcl, "yo": yo, "cycles": cycles if g is not None else 12, "flags": fl, "timeout": 9999}
     simpl, smodel, sstats = simcheck.run_sim_cases(report, scases, key_prefix="debug-table")
     rows_checked = 0
     for cid, c in scases.items():
